@@ -205,7 +205,7 @@ fn elems<T: TW>(ctx: &Ctx, nrandom: usize) -> Vec<(&'static str, Vec<BigUint>)> 
 
 fn run_tw<T: TW>(ctx: &mut Ctx) {
     let n = T::NAME;
-    let nr = if ctx.quick() { 3 } else { 25 };
+    let nr = crate::sz(ctx, 3, 25);
     let cls = elems::<T>(ctx, nr);
     let els: Vec<T> = cls.iter().map(|(_, c)| T::of(c)).collect();
     for ((c, v), a) in cls.iter().zip(&els) {
@@ -295,7 +295,7 @@ fn run_tw<T: TW>(ctx: &mut Ctx) {
 
 fn run_deg2_extras(ctx: &mut Ctx) {
     // BLS Fp2
-    for (c, v) in elems::<Fp2>(ctx, if ctx.quick() { 6 } else { 60 }) {
+    for (c, v) in elems::<Fp2>(ctx, crate::sz(ctx, 6, 60)) {
         let a = Fp2::of(&v);
         let av = cs(&v);
         let nt = c.starts_with("random");
@@ -319,7 +319,7 @@ fn run_deg2_extras(ctx: &mut Ctx) {
         }
     }
     // BN254 Fq2
-    for (c, v) in elems::<Fq2>(ctx, if ctx.quick() { 6 } else { 60 }) {
+    for (c, v) in elems::<Fq2>(ctx, crate::sz(ctx, 6, 60)) {
         let a = Fq2::of(&v);
         let av = cs(&v);
         let nt = c.starts_with("random");
@@ -375,7 +375,7 @@ fn run_deg2_extras(ctx: &mut Ctx) {
 }
 
 fn run_sparse(ctx: &mut Ctx) {
-    let nr = if ctx.quick() { 4 } else { 40 };
+    let nr = crate::sz(ctx, 4, 40);
     let e6 = elems::<Fq6>(ctx, nr);
     let e2 = elems::<Fq2>(ctx, nr);
     for (i, (c, v)) in e6.iter().enumerate() {
